@@ -2730,6 +2730,7 @@ func ruleCallbackErr(c *Ctx, rule string) {
 			}
 			// the error result stored into a captured variable
 			var cell *ssa.FreeVar
+			indirect := false
 			for _, r := range *cl.Referrers() {
 				ex, ok := r.(*ssa.Extract)
 				if !ok || ex.Index != 1 || ex.Referrers() == nil {
@@ -2739,6 +2740,12 @@ func ruleCallbackErr(c *Ctx, rule string) {
 					if st, ok := rr.(*ssa.Store); ok {
 						if fv, ok := st.Addr.(*ssa.FreeVar); ok {
 							cell = fv
+						}
+						// `*errp = err` with errp a captured pointer parameter of a shared helper
+						if ld, ok := st.Addr.(*ssa.UnOp); ok && ld.Op == token.MUL {
+							if fv, ok := ld.X.(*ssa.FreeVar); ok {
+								cell, indirect = fv, true
+							}
 						}
 					}
 				}
@@ -2757,8 +2764,13 @@ func ruleCallbackErr(c *Ctx, rule string) {
 				for _, pr := range [][2]ssa.Value{{bo.X, bo.Y}, {bo.Y, bo.X}} {
 					k, isNil := pr[1].(*ssa.Const)
 					ld, isLoad := pr[0].(*ssa.UnOp)
-					if isNil && k.IsNil() && isLoad && ld.X == ssa.Value(cell) && (bo.Op == token.EQL) == g.Truth {
-						sticky = true
+					if isNil && k.IsNil() && isLoad && (bo.Op == token.EQL) == g.Truth {
+						if ld.X == ssa.Value(cell) {
+							sticky = true
+						}
+						if l2, ok := ld.X.(*ssa.UnOp); ok && indirect && l2.X == ssa.Value(cell) {
+							sticky = true
+						}
 					}
 				}
 			}
@@ -2778,6 +2790,11 @@ func ruleCallbackErr(c *Ctx, rule string) {
 						if isNil && k.IsNil() && isLoad && ld.X == ssa.Value(cell) {
 							isErrTest = true
 						}
+						if isNil && k.IsNil() && isLoad && indirect {
+							if l2, ok := ld.X.(*ssa.UnOp); ok && l2.X == ssa.Value(cell) {
+								isErrTest = true
+							}
+						}
 					}
 				}
 				if !isErrTest {
@@ -2796,8 +2813,41 @@ func ruleCallbackErr(c *Ctx, rule string) {
 			perCall := false
 			eachInstr(fn.Parent(), func(x ssa.Instruction) {
 				if mc, ok := x.(*ssa.MakeClosure); ok && mc.Fn == ssa.Value(fn) && idx >= 0 && idx < len(mc.Bindings) {
-					if _, isAlloc := mc.Bindings[idx].(*ssa.Alloc); isAlloc {
+					al, isAlloc := mc.Bindings[idx].(*ssa.Alloc)
+					if isAlloc && !indirect {
 						perCall = true
+					}
+					if isAlloc && indirect && al.Referrers() != nil {
+						// the cell holds a pointer parameter of the helper: every caller of
+						// the helper passes the address of one of its own locals
+						for _, r := range *al.Referrers() {
+							st, ok := r.(*ssa.Store)
+							if !ok {
+								continue
+							}
+							p, ok := st.Val.(*ssa.Parameter)
+							if !ok {
+								continue
+							}
+							pi := -1
+							for k, q := range fn.Parent().Params {
+								if q == p {
+									pi = k
+								}
+							}
+							cs := l.RealCallers(fn.Parent())
+							good := pi >= 0 && len(cs) > 0
+							for _, ci := range cs {
+								if a := ci.Common().Args; pi >= len(a) {
+									good = false
+								} else if _, isLocal := a[pi].(*ssa.Alloc); !isLocal {
+									good = false
+								}
+							}
+							if good {
+								perCall = true
+							}
+						}
 					}
 				}
 			})
